@@ -18,7 +18,16 @@ pub fn child(args: &[String]) {
     let target = if args[0] == "stderr" { log4rs::append::console::Target::Stderr } else { log4rs::append::console::Target::Stdout };
     // two highlight groups whose content exactly fills / overflows their maximum width: the reset still follows
     let nonl = args.get(3).map(|s| s == "nonl").unwrap_or(false);
-    let pattern = if nonl { "<{h({l}):.3}{h({t}):2.2}|{m}>" } else { "<{h({l}):.3}{h({t}):2.2}|{m}>{n}" };
+    // "aligned": the two highlight groups sit directly next to each other inside a right-aligned group (the buffering
+    // writer sees style, text, reset, style, text, reset with nothing in between)
+    let aligned = args.get(3).map(|s| s == "aligned").unwrap_or(false);
+    let pattern = if aligned {
+        "{(<{h({l})}{h({t})}>):>12}|{m}>{n}"
+    } else if nonl {
+        "<{h({l}):.3}{h({t}):2.2}|{m}>"
+    } else {
+        "<{h({l}):.3}{h({t}):2.2}|{m}>{n}"
+    };
     let fd = if args[0] == "stderr" { 2 } else { 1 };
     let a: Box<dyn Append> = if args.get(2).map(|s| s == "config").unwrap_or(false) {
         // from a configuration value; keys whose documented default is wanted are left out
@@ -98,7 +107,11 @@ fn drain(e: End) -> Vec<u8> {
     out
 }
 
-fn plain_line(l: log::Level, nonl: bool) -> String {
+fn plain_line(l: log::Level, variant: usize) -> String {
+    if variant == 2 {
+        return format!("{:>12}|payload>\n", format!("<{}tg>", l));
+    }
+    let nonl = variant == 1;
     format!("<{}tg|payload>{}", &l.to_string()[..3], if nonl { "" } else { "\n" })
 }
 
@@ -154,9 +167,10 @@ fn check_row(case: &Value, exe: &str, idx: usize) -> Option<Value> {
     let (err_end, err_fd) = make(r["err_tty"].as_bool().unwrap());
     let mut cmd = Command::new(exe);
     cmd.arg("console-child").arg(r["target"].as_str().unwrap()).arg(r["tty_only"].to_string()).arg(if idx % 2 == 1 { "config" } else { "builder" });
-    let nonl = (idx / 2) % 2 == 1;
-    // (idx is row * 4 + variant: every row runs with both constructions and with and without a final newline)
-    cmd.arg(if nonl { "nonl" } else { "nl" });
+    let variant = (idx / 2) % 3; // 0: newline at the end, 1: none, 2: highlight groups inside a right-aligned group
+    let nonl = variant;
+    // (idx is row * 6 + variant: every row runs with both constructions and all three patterns)
+    cmd.arg(["nl", "nonl", "aligned"][variant]);
     for (var, key) in [("NO_COLOR", "no_color"), ("CLICOLOR", "clicolor"), ("CLICOLOR_FORCE", "force")] {
         match r[key].as_str().unwrap() {
             "unset" => {
@@ -233,7 +247,7 @@ fn check_row(case: &Value, exe: &str, idx: usize) -> Option<Value> {
                 // style, reset, style, reset - each group is closed before the next text
                 let per_line = strip_sgr(line).map(|x| x.1).unwrap_or_default();
                 let shape_ok = per_line.len() == 4 && per_line[1] == "\u{1b}[0m" && per_line[3] == "\u{1b}[0m" && per_line[0] != "\u{1b}[0m" && per_line[2] != "\u{1b}[0m";
-                if !shape_ok || !line.contains("\u{1b}[0m|payload") {
+                if !shape_ok || !line.contains(if variant == 2 { "\u{1b}[0m>|payload" } else { "\u{1b}[0m|payload" }) {
                     return Some(json!({"what": "highlighted group is not followed by a reset", "line": line}));
                 }
             }
@@ -299,7 +313,7 @@ pub fn main(args: &[String]) {
     let rows = read_ndjson(&args[0]);
     let exe = std::env::current_exe().unwrap().to_string_lossy().to_string();
     let res = par_map(&rows, 8, |i, c| {
-        let m = if c["kind"] == "row" { (0..4).find_map(|v| check_row(c, &exe, i * 4 + v)) } else { check_style(c) };
+        let m = if c["kind"] == "row" { (0..6).find_map(|v| check_row(c, &exe, i * 6 + v)) } else { check_style(c) };
         m.into_iter().map(|m| json!({"case": i, "input": c, "mismatch": m})).collect()
     });
     write_ndjson(&args[1], &res);
